@@ -278,8 +278,18 @@ type srvBatch struct {
 }
 
 func startServer(cfg srvCfg) (*srvBatch, error) {
+	h := &srvHandler{cfg: cfg, g: &gate{ch: make(chan struct{}), k: cfg.Burst}, big: &gate{ch: make(chan struct{}), k: cfg.Window / 3}}
+	b, err := startServerWith(cfg, h)
+	if b != nil {
+		b.h = h
+	}
+	return b, err
+}
+
+// startServerWith runs the real server of cfg.Proto on a loopback listener with
+// the given handler.
+func startServerWith(cfg srvCfg, handler server.Handler) (*srvBatch, error) {
 	b := &srvBatch{cfg: cfg}
-	b.h = &srvHandler{cfg: cfg, g: &gate{ch: make(chan struct{}), k: cfg.Burst}, big: &gate{ch: make(chan struct{}), k: cfg.Window / 3}}
 	switch cfg.Proto {
 	case "tcp", "tls":
 		l, err := net.Listen("tcp", "127.0.0.1:0")
@@ -298,7 +308,7 @@ func startServer(cfg srvCfg) (*srvBatch, error) {
 		} else if cfg.Slow > 0 {
 			l = smallBufListener{l}
 		}
-		go server.ServeTCP(l, b.h, server.TCPServerOpts{IdleTimeout: 60 * time.Second})
+		go server.ServeTCP(l, handler, server.TCPServerOpts{IdleTimeout: 60 * time.Second})
 		b.stop = func() { l.Close() }
 	case "doq":
 		cert, err := utils.GenerateCertificate("c16.test")
@@ -326,7 +336,7 @@ func startServer(cfg srvCfg) (*srvBatch, error) {
 		}
 		b.addr = uc.LocalAddr().String()
 		b.tlsConf = &tls.Config{InsecureSkipVerify: true, ServerName: "c16.test", NextProtos: []string{"doq"}}
-		go server.ServeDoQ(ql, b.h, server.DoQServerOpts{IdleTimeout: 60 * time.Second})
+		go server.ServeDoQ(ql, handler, server.DoQServerOpts{IdleTimeout: 60 * time.Second})
 		b.stop = func() { ql.Close(); qt.Close(); uc.Close() }
 	default:
 		return nil, errors.New("bad proto")
